@@ -6,7 +6,7 @@ LITERAL_ESCAPES = [
     r"'\U00110000'", r"'\U0010FFFF' + s1", r'b"\400"', r'b"\777"', r'b"\377" + y1', r'b"\U0001F600"', r"b'é'", r"b'\U00000041'",
     r"'\ud800' + s1", r"'\udfff'", r'"\xff" + s1', r'b"\xff" + y1', r"'\400'", r"'\777' + s1", r"'''\U00110000'''", r'b"""\400"""',
     r"r'\U00110000' + s1", r"br'\400' + y1", r"'\U00000000'", r"b'\000'", r"size('\U0001F600')", r"size(b'\U0001F600')", r"'\U0001F600' == s1",
-    r"b'\U0010FFFF'", r"b'￿' + y1", r'"\U00110000" == s1 || true', r'false && b"\400" == y1',
+    r"b'\U0010FFFF'", r"'\UFFFFFFFF'", r"'\U80000000' + s1", r"'\UFFFFFFFF' == s1 || true", r"b'\UFFFFFFFF'", r"b'￿' + y1", r'"\U00110000" == s1 || true', r'false && b"\400" == y1',
 ]
 
 # extension macros and accessors applied to operands they do not fit
